@@ -1,5 +1,5 @@
 """C45 - shutdown releases every connection and stops accepting work (spec/Hosts.tla, Shutdown always enabled)."""
-from checks import _hosts
+from checks import _hosts, _driver
 
 META = {
     "property_id": "C45",
@@ -27,7 +27,10 @@ META = {
 
 def run(ctx):
     _hosts.run(ctx, "C45")
+    _driver.system_tier(ctx, "C45")     # thorough: whole-driver runs against spec/Driver.tla, rejections owned by C45
 
 
 def replay(ctx, obj):
+    if _driver.is_system_replay(obj):
+        return _driver.replay_system(ctx, obj)
     _hosts.replay(ctx, "C45", obj)
